@@ -185,7 +185,11 @@ func sharedOps(n ast.Node, recv string) []sharedOp {
 							}
 						}
 					}
-					ops = append(ops, sharedOp{pos: e.Pos(), what: "atomic." + se.Sel.Name + " " + field})
+					what := "atomic." + se.Sel.Name + " " + field
+					for _, a := range e.Args[1:] {
+						what += " " + exprString(token.NewFileSet(), a)
+					}
+					ops = append(ops, sharedOp{pos: e.Pos(), what: what})
 					skip[e.Args[0]] = true
 				}
 			}
